@@ -113,6 +113,12 @@ structure Oracles where
   newCipher : Bytes → Go.R (Cfb.Block → Cfb.Block) := fun _ => .error "aes.KeySizeError"
   /-- `io.ReadFull(rand.Reader, iv)`: the filled buffer -/
   randRead : Bytes → Go.R Bytes := fun b => .ok b
+  /-- `json.Unmarshal(data, &m)` as far as the TOP LEVEL goes: the members of the document (an error when it is not a JSON object);
+      used by the JSON wrapper methods of the claims types (Model/CodecWrap.lean) -/
+  parseObj : String → Go.R Obj := fun _ => .error "json"
+  /-- `json.Unmarshal(data, alias)` into the typed alias struct of a claims type that held `r`: the struct afterwards, seen through
+      its encoding (encoding/json's reflection over the struct tags + the members' own decoders) -/
+  decodeAlias : Obj → Reg → Go.R Reg := fun _ r => .ok r
 
 /-- the `bytes.Buffer` of `mergeAndMarshalClaims`: the JSON documents written to it and not yet read -/
 structure Buf where
